@@ -851,6 +851,17 @@ func vfGenC11(r *vfRand, id int) *vfWorldCase {
 		acts = append(acts, vfLogin(0, 0, "/app", vfOkScript(vfPlainTok("user@example.com", 3600)))...)
 		acts = append(acts, vfGated(0, 0, "/app", 1))
 	}
+	if r.chance(1, 3) { // the same instance reached under other public origins: each logout returns to the origin it came from
+		for _, h := range []string{"admin.example.test", "", "shop.example.net"} {
+			h := h
+			acts = append(acts, vfReqAct(0, 0, "GET", vfLogoutPath, 3, func(q *vfReq) {
+				q.XFHost = h
+				if h != "" {
+					q.XFProto = "https"
+				}
+			}))
+		}
+	}
 	cs.Script.Actions = acts
 	return cs
 }
@@ -860,7 +871,16 @@ func vfCorpusC11() []*vfWorldCase {
 	sc.RefreshLen = 5200
 	acts := append(vfLogin(0, 0, "/app", sc), vfLogoutAct(0, 0), vfGated(0, 0, "/app", 1),
 		vfReqAct(0, 0, "GET", "/app", 1, func(q *vfReq) { q.AcceptJS = true }))
+	// logouts of one instance from several origins, with and without a session
+	lo := func(h, proto string) vfAction {
+		return vfReqAct(0, 0, "GET", vfLogoutPath, 3, func(q *vfReq) { q.XFHost, q.XFProto = h, proto })
+	}
+	origins := append(vfLogin(0, 0, "/app", vfOkScript(vfPlainTok("user@example.com", 3600))), lo("shop.example.test", ""), lo("admin.example.test", "https"))
+	origins = append(origins, vfLogin(0, 0, "/app", vfOkScript(vfPlainTok("user@example.com", 3600)))...)
+	origins = append(origins, lo("admin.example.test", "https"), lo("", ""))
 	return []*vfWorldCase{
+		{Kind: "corpus", Script: vfScript{Cfg: vfWorldCfg{EndSession: true, GraceSec: 60, PostLogout: "/signed-out"}, Browsers: 1, Actions: origins}},
+		{Kind: "corpus", Script: vfScript{Cfg: vfWorldCfg{EndSession: false, GraceSec: 60}, Browsers: 1, Actions: origins}},
 		{Kind: "corpus", Script: vfScript{Cfg: vfWorldCfg{EndSession: true, GraceSec: 7200, PostLogout: "/bye"}, Browsers: 1, Actions: acts}},
 		{Kind: "corpus", Script: vfScript{Cfg: vfWorldCfg{EndSession: true, GraceSec: 7200, PostLogout: "/bye", Revocation: "fail"}, Browsers: 1, Actions: acts}},
 	}
